@@ -13,7 +13,7 @@ Definition core_dy (f : fmt) (v : dy) : Prop :=
   Z.abs (dm v) < 2^53 /\ -1074 <= de v <= 971 /\ -1074 <= de v + nf f
   /\ (0 <= de v -> Z.abs (dm v) * 2^(de v) < 2^53)
   /\ (0 <= de v + nf f -> Z.abs (dm v) * 2^(de v + nf f) < 2^62)
-  /\ (dm v = 0 -> de v = 0).          (* zero is written 0 * 2^0 *)
+  /\ (dm v = 0 -> de v + nf f <= 1024).   (* a zero mantissa may carry any moderate exponent *)
 Definition core_int (f : fmt) (z : Z) : Prop :=
   Z.abs z < 2^53 /\ (0 <= nf f -> Z.abs z * 2^(nf f) < 2^62).
 
